@@ -27,6 +27,8 @@ def _dyadic(draw, tier):
     c["mrts"] = draw(gen.mrts_for(g, allow_auto=True))
     c["ri"] = draw(st.booleans())
     c["compiled"] = draw(st.booleans())
+    c["mrts_type"] = draw(st.sampled_from([None, None, "int", "np.int64", "np.float32",
+                                           "np.float64"]))
     c["domain"] = "dyadic"
     q, k0, n = g["q"], g["k0"], g["n"]
     ev = sorted(set([0, n] + [s for tr in g["trains"] for s in tr]))
